@@ -72,6 +72,33 @@ SELF_TEST = {"recorded": "2026-09-29, scratch worktree of /repo, quick tier seed
     "seeded/sv2-refactor-extra-select (behaviour preserving)": "green"}}
 
 
+# ---- static route (work-package sqlsites, design/sqlsites.md): the skeleton (SQL statement sites, sqlite_transaction
+# scopes, commit() calls, calls resolved transitively) of every public mutating entry point is regenerated from
+# clang's typed AST on every run (lean/EngineModel/Gen/SqlSites.lean) and `staticAtomic` of each is decided in the kernel
+import tr_sqlsites as _sqs
+LEAN_MODULES = LEAN_MODULES + ["Properties.C14Sites"]
+THEOREMS = THEOREMS + ["EngineModel.Properties.C14Sites." + t for t in [
+    "C14_sites_sound", "C14_sites_all_or_nothing", "C14_sites_all_atomic", "C14_sites_coverage", "C14_sites_rejects",
+    "C14_sites_unscoped_counterexample"]]
+TRANSLATORS = dict(globals().get("TRANSLATORS", {}), **{"sqlsites (engine v1/v2 impl + table classes -> Gen/SqlSites.lean)": _sqs.regenerate})
+ASSUMPTIONS = ASSUMPTIONS + [
+    "static route: the AST -> skeleton mapping of tools/tr_sqlsites.py is trusted (a `db << <sql>` site is classified by "
+    "the leading keyword of its first string literal; a local util::sqlite_transaction opens a scope that ends with its "
+    "block; calls are resolved through mangled names, wrappers djinterop::track/crate/database by method name to both "
+    "generations; loops / switch / try / row callbacks / recursion are flattened to 'any number, any order'); statements "
+    "issued by SQLite triggers belong to their statement; the schema creators / validators are summarised (write* / read*)",
+]
+MANIFEST = dict(MANIFEST, text=MANIFEST["text"] + " Static route (C14_sites_all_atomic, C14_sites_sound, "
+                "C14_sites_all_or_nothing): the skeleton of EVERY public mutating entry point (impl classes behind "
+                "djinterop::track / crate / database of both generations, public 2.x table-class methods; SQL statement "
+                "sites read/write, sqlite_transaction scopes, commit() calls, calls resolved transitively, loops as 'many') "
+                "is regenerated from clang's typed AST on every run; the decidable predicate staticAtomic (abstract "
+                "interpretation of the atomicShape monitor, loops by fixpoint) is proved sound — every trace of an accepted "
+                "skeleton, cut anywhere by an exception or early return, is an atomic shape, hence all-or-nothing at every "
+                "fault position — and holds of every mutating entry point by `decide`: no sampling of operations, states or "
+                "schema versions on this route.")
+
+
 # ------------------------------------------------------------------ the operations under test
 def op_instances(rng, h):
     """For the state reached by history h: one applicable instance of every
